@@ -18,6 +18,11 @@ META["C11"] = dict(
     note="Trusted: Lean kernel; the integer-expression translator (Go uint semantics -> BitVec); validated each run by running the generated definitions against security.Count on random op sequences, all carry boundaries and increment walks.",
     technique="Lean 4 proof over a BitVec model regenerated from counter.go (translator) + Go/Lean correspondence")
 
+META["C09"] = dict(
+    text="Every scalar getter/setter body of nasType (539 pairs) is regenerated as a typed expression and checked by a symbolic bit-level executor that is proved sound once in Lean (sym_sound); the per-run obligation `pairs.all pairOK` is a kernel `decide`. Theorems: getter reads exactly the documented bits, set-then-get = value mod 2^len, setter frame (no bit outside the field changes), non-overlapping fields keep their value; for all prior contents and values. 53 octet-range pairs: generic list theorems + decidable row check. Layouts equal the pinned annotations.",
+    note="Trusted: Lean kernel; the expression translator (validated each run by evaluating the generated expressions against the real accessors on generated contents/values); the pinned layout table; Go reflection in the harness. Iei/Len plain-field accessors are recognised structurally (not bit fields). DNN.GetDNN/SetDNN is a text conversion (C14).",
+    technique="Lean 4 proof: verified symbolic bit executor + decide over accessors regenerated from nasType; Go/Lean correspondence")
+
 NOT_APPLICABLE = {
  "C01": "check not built yet in this round (Lean model + correspondence planned, see DESIGN.md section 4); not claimed until it runs",
  "C02": "check not built yet in this round (Lean model + correspondence planned, see DESIGN.md section 4); not claimed until it runs",
